@@ -3,7 +3,7 @@
 import ast
 
 from ..report import rule
-from .. import norm, cfg as cfgmod, guards
+from .. import pm, norm, cfg as cfgmod, guards
 from ..model import AnalysisError
 from .common import calls_of, find_calls, returns_of, is_abstract_body, bind_args
 
@@ -240,8 +240,9 @@ def c16_r4(ctx):
     init = prog.method("qparser.plugins.OperatorsPlugin", "__init__", inherited=False)
     ctx.saw(init)
     got = []
+    ial = norm.aliases(init.node)
     for c in norm.calls_in(init.node):
-        if norm.call_name(c) == "ot" and len(c.args) >= 2:
+        if norm.canon(c.func, ial) == "self.OpTagger" and len(c.args) >= 2:
             expr = norm.canon(c.args[0])
             grp = norm.canon(c.args[1]).split(".")[-1]
             opt = norm.canon(c.args[2]).split(".")[-1] if len(c.args) > 2 else "InfixOperator"
@@ -279,14 +280,24 @@ def c16_r5(ctx):
     prog = ctx.prog
     tag = prog.method("qparser.default.QueryParser", "tag", inherited=False)
     ctx.saw(tag)
-    inter_calls = [c for c in norm.calls_in(tag.node) if norm.call_name(c) == "inter"]
-    args = [tuple(norm.canon(a) for a in c.args) for c in inter_calls]
-    ctx.ob(tag, ("prev", "pos") in args and ("prev", "len(text)") in args,
+    # the helper that wraps text[start:end] into a WordNode
+    helpers = [n.name for n in ast.walk(tag.node) if isinstance(n, ast.FunctionDef) and n is not tag.node and
+               any(norm.call_name(c) == "WordNode" for c in norm.calls_in(n))]
+    inter_calls = [c for c in norm.calls_in(tag.node) if norm.call_name(c) in helpers]
+    TA = pm.Alpha(tag)
+    TA.find(pm.stmts_of(tag.node), "prev = pos")
+    args = [TA.text(c) for c in inter_calls]
+    ctx.ob(tag, len(helpers) == 1 and any(TA.eq(c, "%s(prev, pos)" % helpers[0]) for c in inter_calls) and
+           any(TA.eq(c, "%s(prev, len(text))" % helpers[0]) for c in inter_calls),
            "in-between text and trailing text are both turned into word nodes", detail=str(args))
     adv = any(isinstance(st, ast.AugAssign) and norm.canon(st.target) == "pos" and isinstance(st.op, ast.Add) and
               norm.canon(st.value) == "1" for st in ast.walk(tag.node))
     ctx.ob(tag, adv, "the cursor advances by one character when no tagger matches")
     pr = prog.method("qparser.default.QueryParser", "parse", inherited=False)
     ctx.saw(pr)
-    txt = norm.stmt_text(pr.node)
-    ctx.ob(pr, "q = query.NullQuery" in txt and "q = q.normalize()" in txt, "parse() returns NullQuery for nothing and normalizes the result")
+    PA = pm.Alpha(pr)
+    sts = pm.stmts_of(pr.node)
+    rets = [r.value for r in returns_of(pr)]
+    ok = PA.has(sts, "q = nodes.query(self)") and PA.has(sts, "q = query.NullQuery") and PA.has(sts, "q = q.normalize()") and \
+        len(rets) == 1 and PA.eq(rets[0], "q")
+    ctx.ob(pr, ok, "parse() returns NullQuery for nothing and normalizes the result")
